@@ -84,6 +84,15 @@ OPS3 = [
 ]
 
 
+# fifth operator set (tools/mutation_audit.py --ops 5): two similar variables exchanged (one occurrence at a time)
+_PAIRS5 = [("start_cursor", "end_cursor"), ("marker", "end_marker"), ("line_start", "line_end"), ("color_start", "color_end"), ("start_byte_pos", "end_byte_pos"),
+           ("pos", "pair_start_pos"), ("range", "pending_range"), ("children", "pending_removal_children"), ("removal_tree", "pending_removal_tree"),
+           ("delimiter_start", "delimiter_end"), ("first_indent_len", "indent_len"), ("indent_ofs", "indent_len"), ("current_pos", "start_byte_pos"),
+           ("byte_pos", "byte_start_pos"), ("start", "end"), ("ranges", "ranges_pending"), ("write_cursor", "read_cursor"), ("name", "value"),
+           ("marker_start_tab_len", "marker_end_tab_len"), ("marker_start_ofs_len", "marker_end_ofs_len"), ("line_start", "line_end_start_pos")]
+OPS5 = [(r"(?<![\w.])%s(?![\w(])" % a, b) for a, b in _PAIRS5] + [(r"(?<![\w.])%s(?![\w(])" % b, a) for a, b in _PAIRS5]
+
+
 def source_files(repo):
     out = []
     for root in ("chiritori/src", "chiritori-cli/src"):
